@@ -76,7 +76,8 @@ def run(R, env):
             return membership(prog, t, lambda c_: cfg(c_, "allowed_swap_routes"), routes)
 
         found = []
-        ok, off = arm_guarded(prog, dctx, arm, Guard("allow-listed", boolean=allowed), env.depth, found)
+        allowed_opt = lambda t: membership_option(prog, t, lambda c_: cfg(c_, "allowed_swap_routes"), routes)
+        ok, off = arm_guarded(prog, dctx, arm, Guard("allow-listed", boolean=allowed, subject=allowed_opt), env.depth, found)
         R.ob("C13.R1", v + ":route-allow-listed", ok, "swap succeeds along a route that is not equal to an allow-listed route: %s" % (off,), fn=hk, found=found)
         # R2 end point
         which, fld = S["end"]
